@@ -522,16 +522,18 @@ func ruleSecretWhole(c *Checker) {
 		c.decide(okk && okSet, "HSK-SIB", "secret|"+fn.Name()+" turns the whole stretched secret into the scalar", fn.Pos(), "pw.SetByteSlice(passphraseEntropy) on the unmodified parameter",
 			fn.Name()+" does not use the whole stretched secret ("+why+")")
 	}
+	secretArgIdx := -1 // position of the stretched secret among newHandshakeState's parameters
 	if nbm := mboxFunc(c, "mailbox.NewBrontideMachine"); nbm != nil {
 		okk := false
 		for _, ci := range findCalls(nbm, func(ci ssa.CallInstruction) bool { return calleeNameIsCI(ci, "stretchPassphrase") }) {
 			if call, ok := ci.Common().Args[0].(*ssa.Call); ok && call.Common().IsInvoke() && call.Common().Method.Name() == "PassphraseEntropy" {
 				// the stretched value reaches newHandshakeState
 				for _, h := range findCalls(nbm, func(ci ssa.CallInstruction) bool { return calleeNameIsCI(ci, "newHandshakeState") }) {
-					for _, a := range h.Common().Args {
+					for ai, a := range h.Common().Args {
 						for _, v := range expandValues(a) {
 							if ex, ok := v.(*ssa.Extract); ok && ex.Tuple == ssa.Value(ci.(*ssa.Call)) && ex.Index == 0 {
 								okk = true
+								secretArgIdx = ai
 							}
 						}
 					}
@@ -548,7 +550,7 @@ func ruleSecretWhole(c *Checker) {
 		if f != nil {
 			for _, st := range w.Stores(f) {
 				if st.Parent() == nhs {
-					if p, ok := st.Val.(*ssa.Parameter); ok && p.Name() == "passphraseEntropy" {
+					if p, ok := st.Val.(*ssa.Parameter); ok && secretArgIdx >= 0 && secretArgIdx < len(nhs.Params) && nhs.Params[secretArgIdx] == p {
 						okk = true
 					}
 				}
@@ -773,7 +775,7 @@ func checkPreMessages(c *Checker, nhs *ssa.Function) {
 		if hasOrigin(arg, "PubKey") {
 			local = true
 		}
-		if p := paramOrigin(arg); p != nil && p.Name() == "remoteStatic" {
+		if p := paramOrigin(arg); p != nil && isRemoteStaticParam(p) {
 			// dominated by remoteStatic != nil
 			if hasFact(m.Block(), func(f Fact) bool {
 				bo, ok := f.Cond.(*ssa.BinOp)
@@ -792,7 +794,7 @@ func checkPreMessages(c *Checker, nhs *ssa.Function) {
 				return false
 			}
 			p, ok := bo.X.(*ssa.Parameter)
-			return ok && p.Name() == "remoteStatic" && ((bo.Op == token.EQL && f.Val) || (bo.Op == token.NEQ && !f.Val))
+			return ok && isRemoteStaticParam(p) && ((bo.Op == token.EQL && f.Val) || (bo.Op == token.NEQ && !f.Val))
 		}) && blockReturnsError(b, 0) {
 			okErr = true
 		}
@@ -838,6 +840,7 @@ func runC04(c *Checker) {
 	// ---- HSK-BIND reader side ----
 	for _, fn := range []*ssa.Function{rmp, rt} {
 		r := ssa.Value(fn.Params[1])
+		nDesc := map[string]int{} // several buffers of the same size in one function are numbered in source order
 		allInstrs(fn, func(in ssa.Instruction) {
 			call, ok := in.(*ssa.Call)
 			if !ok {
@@ -849,6 +852,10 @@ func runC04(c *Checker) {
 			}
 			buf := call.Common().Args[1]
 			desc := hskBufDesc(w, buf)
+			nDesc[desc]++
+			if nDesc[desc] > 1 {
+				desc = fmt.Sprintf("%s (#%d of that size)", desc, nDesc[desc])
+			}
 			// forward closure of values derived from buf within fn
 			tainted := map[ssa.Value]bool{}
 			var bufBase ssa.Value = buf
@@ -966,7 +973,7 @@ func runC04(c *Checker) {
 			if cc.IsInvoke() && cc.Method.Name() == "Write" {
 				arg = cc.Args[0]
 			} else if sc := cc.StaticCallee(); sc != nil && isMethod(sc, "bytes", "Buffer", "Write") {
-				if al, ok := cc.Args[0].(*ssa.Alloc); ok && al.Comment == "payloadWriter" {
+				if localAssemblyBuffer(cc.Args[0]) {
 					return
 				}
 				arg = cc.Args[1]
@@ -1292,7 +1299,7 @@ func hskBufDesc(w *World, v ssa.Value) string {
 				if n == 1 {
 					return "the 1-byte version field"
 				}
-				return fmt.Sprintf("a %d-byte field (%s)", n, al.Comment)
+				return fmt.Sprintf("a %d-byte field", n)
 			}
 		}
 	}
@@ -1411,4 +1418,20 @@ func ruleKKMinVersion(c *Checker, rule string) {
 			"for the KK pattern the "+what+" handshake version handed to the handshake state is >= HandshakeVersion2",
 			"for the KK pattern (two acts, no re-check by the responder) the "+what+" version is not forced to >= 2: a rewritten act-2 version byte is accepted and the two sides disagree on the version ("+detail+")")
 	}
+}
+
+// isRemoteStaticParam: the parameter of newHandshakeState that carries the peer's static
+// key - its only parameter of type *btcec.PublicKey (identified by type, not by name).
+func isRemoteStaticParam(p *ssa.Parameter) bool {
+	nt := namedOf(deref(p.Type()))
+	if nt == nil || nt.Obj().Name() != "PublicKey" {
+		return false
+	}
+	n := 0
+	for _, q := range p.Parent().Params {
+		if t := namedOf(deref(q.Type())); t != nil && t.Obj().Name() == "PublicKey" {
+			n++
+		}
+	}
+	return n == 1
 }
